@@ -163,6 +163,10 @@ def stepX (s : DState) (line : String) : DState × Option String :=
     match unhex p with
     | some p => ({ s with w := { s.w with fs := s.w.fs.filter (fun e => !((p ++ [47]).isPrefixOf e.1)) } }, some "fsrmdir ok")
     | none => bad s line
+  | ["goflag", _, _] =>
+    -- a command-line flag declared by the user's tests (`-update` for golden files): the mode of the run is what
+    -- the `mode` line said, nothing else is consulted
+    (s, some "goflag ok")
   | ["chdir", _] =>
     -- the test changes its working directory: nothing in the model depends on it (ordinary builds)
     (s, some "chdir ok")
